@@ -158,6 +158,9 @@ func checkReportVsData(tr *trace) []issue {
 func c09Gen(c *caseCtx) *genReq {
 	method := methods[c.idx%len(methods)]
 	o := genOpts{method: method, nBiases: c.rng.Intn(4), minCrit: 1, maxCrit: 4, minAlt: 1, maxAlt: 5, negValues: c.rng.Intn(4) == 0, allFire: c.rng.Intn(2) == 0}
+	if method == "choquetIntegral" {
+		o.maxCrit = 6
+	}
 	// emphasis: every known alternative considered (internal slices shared, not copied)
 	if c.rng.Intn(2) == 0 {
 		o.allCons = 1
